@@ -497,6 +497,92 @@ func runC11(c *Ctx) error {
 			c.Sample(map[string]any{"self": self.String(), "ops": w.desc})
 		}
 	}
+	// crowded routing prefixes with small limits: many direct peers inside one routing prefix, gossip
+	// routes to those peers and to destinations spread over the whole prefix (routing bits that are
+	// not a multiple of 8 too), peers that connect while their prefix is over its limit
+	for i, n := 0, c.Pick(40, 400); i < n; i++ {
+		rbits := []int{12, 16, 18, 20}[c.Rng.IntN(4)]
+		limit := 1 + c.Rng.IntN(3)
+		self := addrFrom(0xfd40_0000_1111_2222, 0x3333_4444_5555_0009)
+		cfg := m.RoutingTableConfig{RouterIP: self, RoutablePrefixes: []m.RoutablePrefix{
+			{BasePrefix: netip.MustParsePrefix("fd20::/11"), RoutingBits: rbits, EntryTTL: time.Hour, EntriesPerPrefix: limit},
+			{BasePrefix: netip.MustParsePrefix("fd00::/8"), RoutingBits: 12, EntryTTL: 3 * time.Hour, EntriesPerPrefix: limit + 1},
+		}}
+		w := &c11World{c: c, tbl: m.NewRoutingTable(cfg), cfg: cfg, self: self, alive: map[netip.Addr]bool{}}
+		// the routing prefix under test: fd20::/rbits; host bits below it are spread over the whole prefix
+		spread := func(k int) netip.Addr {
+			free := 64 - rbits // bits of the upper half below the routing prefix
+			var v uint64
+			if c.Rng.IntN(3) > 0 {
+				v = c.Rng.Uint64() >> (64 - free) // anywhere in the prefix
+			} else {
+				v = uint64(k) // the lowest sub-block
+			}
+			return addrFrom(0xfd20_0000_0000_0000|v, uint64(0xd000+k))
+		}
+		np := 2 + c.Rng.IntN(8)
+		for k := 0; k < np; k++ {
+			w.peers = append(w.peers, spread(k))
+		}
+		nd := 3 + c.Rng.IntN(8)
+		for k := 0; k < nd; k++ {
+			if c.Rng.IntN(3) == 0 {
+				w.dsts = append(w.dsts, w.peers[c.Rng.IntN(len(w.peers))]) // gossip routes to direct peers
+			} else {
+				w.dsts = append(w.dsts, spread(100+k))
+			}
+		}
+		w.dsts = append(w.dsts, addrFrom(0xfd63_0000_0000_0000, uint64(0xd200+i)))
+		for k := 0; k < 3; k++ {
+			w.relays = append(w.relays, addrFrom(0xfd35_0000_0000_0000|uint64(k)<<16, uint64(0xee00+k)))
+		}
+		kinds := []string{}
+		for k, nOps := 0, 15+c.Rng.IntN(30); k < nOps; k++ {
+			r := c.Rng.IntN(100)
+			switch {
+			case r < 25:
+				w.opAdd(true)
+				kinds = append(kinds, "P")
+			case r < 85:
+				w.opAdd(false)
+				kinds = append(kinds, "G")
+			case r < 90:
+				w.opRemoveNextHop()
+				kinds = append(kinds, "N")
+			case r < 95:
+				w.opRemoveDisconnected()
+				kinds = append(kinds, "D")
+			default:
+				w.opClean()
+				kinds = append(kinds, "C")
+			}
+		}
+		// saturation: several routes to every destination of the universe, so that the per-prefix
+		// bound is actually reached
+		if i%2 == 0 {
+			all := w.dsts
+			for _, d := range all {
+				w.dsts = []netip.Addr{d}
+				for k := 0; k < 4; k++ {
+					w.opAdd(false)
+					kinds = append(kinds, "G")
+				}
+			}
+			w.dsts = all
+		}
+		c.Eval()
+		c.Count(fmt.Sprintf("crowded-prefix:rbits=%d", rbits))
+		for _, k := range kinds {
+			c.Count("op:" + k)
+		}
+		c.NonTrivial("crowded/" + strings.Join(w.desc, ";"))
+		rps := make([]string, len(cfg.RoutablePrefixes))
+		for k, rp := range cfg.RoutablePrefixes {
+			rps[k] = coqRp(rp)
+		}
+		c.Case(fmt.Sprintf("(%s,%s,%s)", coqList(rps), ipN(self), coqList(w.steps)), map[string]any{"self": self.String(), "kind": "crowded-prefix", "rbits": rbits, "limit": limit, "ops": w.desc})
+	}
+
 	// stress of the per-prefix bounds: many destinations in one region bucket (the D6 shape)
 	for rep := 0; rep < c.Pick(2, 6); rep++ {
 		self := selfs[0]
